@@ -2061,7 +2061,8 @@ int32 parseServerKeyExchange(ssl_t *ssl,
 #   endif /* USE_X25519 */
 
             /* Return -1 if this isn't a curve we specified in client hello */
-            if (getEccParamById(i, &curve) < 0)
+            if (getEccParamById(i, &curve) < 0
+                    || psTestUserEcID(i, ssl->ecInfo.ecFlags) < 0)
             {
                 ssl->err = SSL_ALERT_ILLEGAL_PARAMETER;
                 psTraceIntInfo("Error: Could not match EC curve: %d\n", i);
